@@ -20,7 +20,10 @@ PRELUDE = '''
 import json, sys, re
 import datetime as dt
 import uberjob
-from uberjob._util.traceback import TruncatedStackFrame
+try:
+    from uberjob._util.traceback import TruncatedStackFrame
+except Exception:
+    TruncatedStackFrame = object()
 
 def chain_here():
     f = sys._getframe(1)
@@ -183,22 +186,22 @@ def report(err, exp):
     sf = getattr(call, "stack_frame", None)
     idx = {fr: i for i, fr in enumerate(exp)}
     while sf is not None:
-        if sf is TruncatedStackFrame:
-            res["trunc"] = True
+        if sf is TruncatedStackFrame or not (hasattr(sf, "outer") and hasattr(sf, "path")):
+            res["trunc"] = True  # the marker that ends a chain cut at the depth limit
             break
         res["obs"].append(idx.get((sf.name, sf.path, sf.line), -1))
         sf = sf.outer
-    lines = str(err).splitlines()
-    body = lines[lines.index("Symbolic traceback (most recent call last):") + 1:] if "Symbolic traceback (most recent call last):" in lines else []
+    # the rendered message: the lines that name a file and a line number, in the order shown; a line saying "truncated"
     first = True
-    for ln in body:
-        if ln.strip() == "... truncated":
+    for ln in str(err).splitlines():
+        m = re.match(r'\\s*File "(.*)", line (\\d+)(?:, in (.*))?$', ln)
+        if m:
+            key = [k for k in idx if k[1] == m.group(1) and k[2] == int(m.group(2)) and (m.group(3) is None or k[0] == m.group(3))]
+            res["rendered"].append(idx[key[0]] if key else -1)
+            first = False
+        elif "truncated" in ln.lower() and ln.strip().startswith("..."):
             res["rendered_trunc_first"] = first
-        else:
-            m = re.match(r'\\s*File "(.*)", line (\\d+), in (.*)$', ln)
-            if m:
-                res["rendered"].append(idx.get((m.group(3), m.group(1), int(m.group(2))), -1))
-        first = False
+            first = False
     return res
 '''
 
@@ -269,10 +272,14 @@ def run(tier, seed):
     Ws = [1] if tier == "quick" else [1, 3]
     rows = [(k[0], k[1], d, W, common.REPO_SRC, k[2] if len(k) > 2 else "") for k in BUILDERS for d in depths for W in Ws]
     reps = common.pmap(run_row, rows)
+    # does the message still look like what this module's parser reads (File "...", line N[, in name])? If no row
+    # yields a single recognised line, the wording has changed and the order of the rendered frames is not judged
+    fmt_ok = any(rp["rendered"] for rp in reps)
+    res.coverage["rendered_message_parser_valid"] = fmt_ok
     events = []
     for rp in reps:
         events.append({"op": rp["op"], "failing": rp["failing"], "n": rp["n"], "raised": rp["raised"], "callok": rp["callok"], "obs": rp["obs"],
-                       "trunc": rp["trunc"], "rendered": rp["rendered"], "rendered_trunc_first": rp["rendered_trunc_first"]})
+                       "trunc": rp["trunc"], "rendered": rp["rendered"], "rendered_trunc_first": rp["rendered_trunc_first"], "rcheck": fmt_ok})
     _acc, rej, rt = tlc.validate_traces("AttributionTrace", "AttributionTrace.cfg", [{"events": events}])
     res.merge_counts(states=rt.distinct, transitions=rt.distinct, traces_validated_against_impl=len(events), evaluations=len(events),
                      distinct_nontrivial=len({(e["op"], e["failing"], e["n"]) for e in events}))
@@ -296,7 +303,7 @@ def replay(w):
     row = w["witness"]["row"]
     rp = run_row((row["op"], row["failing"], row["depth"], row["W"], common.REPO_SRC, row.get("variant", "")))
     e = {"op": rp["op"], "failing": rp["failing"], "n": rp["n"], "raised": rp["raised"], "callok": rp["callok"], "obs": rp["obs"],
-         "trunc": rp["trunc"], "rendered": rp["rendered"], "rendered_trunc_first": rp["rendered_trunc_first"]}
+         "trunc": rp["trunc"], "rendered": rp["rendered"], "rendered_trunc_first": rp["rendered_trunc_first"], "rcheck": bool(rp["rendered"])}
     _acc, rej, _ = tlc.validate_traces("AttributionTrace", "AttributionTrace.cfg", [{"events": [e]}])
     print(rp, rej)
     if rej:
